@@ -141,14 +141,18 @@ func needParen(p, c *pnode, pos int) bool {
 	return false
 }
 
-// print renders the tree; full=true parenthesises every non-leaf operand.
-func printPrec(n *pnode, full bool) string {
+// print renders the tree; full=1 parenthesises every non-leaf operand, full=2 parenthesises it twice
+// (redundant parentheses must survive as nested ParenExpr), full=0 follows needParen.
+func printPrec(n *pnode, full int) string {
 	if n.op == nil {
 		return leafText(n)
 	}
 	kid := func(i int) string {
 		s := printPrec(n.kids[i], full)
-		if full && n.kids[i].op != nil || !full && needParen(n, n.kids[i], i) {
+		if full == 2 && n.kids[i].op != nil {
+			return "( ( " + s + " ) )"
+		}
+		if full == 1 && n.kids[i].op != nil || full == 0 && needParen(n, n.kids[i], i) {
 			return "( " + s + " )"
 		}
 		return s
@@ -174,7 +178,7 @@ func printPrec(n *pnode, full bool) string {
 
 // expectShape renders the AST shape the table prescribes (with the documented
 // normalisations: sign folded into a numeric literal, ".f" on an identifier/path is a Path).
-func expectShape(n *pnode, full bool) string {
+func expectShape(n *pnode, full int) string {
 	if n.op == nil {
 		switch n.lk {
 		case 1:
@@ -188,7 +192,10 @@ func expectShape(n *pnode, full bool) string {
 	}
 	kid := func(i int) string {
 		s := expectShape(n.kids[i], full)
-		if full && n.kids[i].op != nil || !full && needParen(n, n.kids[i], i) {
+		if full == 2 && n.kids[i].op != nil {
+			return "Paren(Paren(" + s + "))"
+		}
+		if full == 1 && n.kids[i].op != nil || full == 0 && needParen(n, n.kids[i], i) {
 			return "Paren(" + s + ")"
 		}
 		return s
@@ -362,7 +369,7 @@ func validPrecTree(n *pnode) bool {
 }
 
 // precFailure evaluates the oracle on one tree and returns (clause, detail) of the first failure.
-func precFailure(t *pnode, full bool) (clause, text, detail string) {
+func precFailure(t *pnode, full int) (clause, text, detail string) {
 	e := EntryByName("ParseExpr")
 	text = printPrec(t, full)
 	res := e.Call(text)
@@ -390,7 +397,7 @@ func precFailure(t *pnode, full bool) (clause, text, detail string) {
 }
 
 // subtreeFails: does some proper subtree, taken as an expression of its own, already fail?
-func subtreeFails(t *pnode, full bool) bool {
+func subtreeFails(t *pnode, full int) bool {
 	for _, k := range t.kids {
 		if k.op == nil {
 			continue
@@ -409,11 +416,7 @@ func checkPrecTree(c *explore.Ctx, t *pnode) {
 	if !validPrecTree(t) {
 		return
 	}
-	for _, full := range []bool{false, true} {
-		mode := "min"
-		if full {
-			mode = "full"
-		}
+	for full, mode := range []string{"min", "full", "double"} {
 		clause, text, detail := precFailure(t, full)
 		c.Input(text)
 		c.Count("expressions", 1)
@@ -427,13 +430,13 @@ func checkPrecTree(c *explore.Ctx, t *pnode) {
 		}
 		c.Violation("C07/"+mode+"/"+clause+"/"+pairClasses(t), text, detail)
 	}
-	c.OutcomeStr(expectShape(t, false))
-	c.Nontrivial(explore.Hash(printPrec(t, false)))
+	c.OutcomeStr(expectShape(t, 0))
+	c.Nontrivial(explore.Hash(printPrec(t, 0)))
 }
 
 // C07: operator precedence and associativity.
 func C07(r *explore.Run) {
-	r.Rule = "every abstract expression tree with at most N operator occurrences over 21 binary, 14 unary-like and 2 ternary operator forms (leaves named by position), printed minimally parenthesised by the documented GoogleSQL table (R3) and fully parenthesised; for trees with <=2 operators each leaf is also varied over {identifier, 1, @p, f(x)}; " +
+	r.Rule = "every abstract expression tree with at most N operator occurrences over 21 binary, 14 unary-like and 2 ternary operator forms (leaves named by position), printed minimally parenthesised by the documented GoogleSQL table (R3) fully parenthesised, and with every operator operand parenthesised twice; for trees with <=2 operators each leaf is also varied over {identifier, 1, @p, f(x)}; " +
 		"oracle: ParseExpr gives exactly the abstract tree's grouping (ParenExpr exactly where printed), and SQL() has the source's tokens; non-trivial = tree with >=2 operators; distinct by expected shape"
 	r.Assume = []string{"R3 is the operator table of the GoogleSQL 'Operators' page; documented normalisations: sign folding into numeric literals, '.f' on an identifier/path yields Path, '<>' prints as '!='"}
 	n := 3
@@ -441,10 +444,10 @@ func C07(r *explore.Run) {
 		n = 4
 	}
 	r.Explore(explore.Options{Space: "expr-trees", MaxDev: -1, SplitLen: 2,
-		Bound: fmt.Sprintf("all trees with <=%d operator occurrences over %d operator forms, printed 2 ways", n, len(precOps))}, func(c *explore.Ctx) {
+		Bound: fmt.Sprintf("all trees with <=%d operator occurrences over %d operator forms, printed 3 ways", n, len(precOps))}, func(c *explore.Ctx) {
 		budget, nleaf := n, 0
 		t := buildPrecTree(c, &budget, &nleaf)
-		c.Sample(printPrec(t, false))
+		c.Sample(printPrec(t, 0))
 		checkPrecTree(c, t)
 	})
 	r.Explore(explore.Options{Space: "expr-trees x leaf-kinds", MaxDev: -1, SplitLen: 2,
@@ -464,7 +467,7 @@ func C07(r *explore.Run) {
 		walk(t)
 		i := c.ChooseFree(len(leaves))
 		leaves[i].lk = 1 + c.ChooseFree(3)
-		c.Sample(printPrec(t, false))
+		c.Sample(printPrec(t, 0))
 		checkPrecTree(c, t)
 	})
 }
